@@ -354,6 +354,19 @@ def analyse(ctx, funcs=robot.MODE_FUNCS, fault=False):
             pis = explore(ctx, info, w, func, fault=fault)
             group += [(func, pi) for pi in pis]
             ctx.add("paths", len(pis))
+            if not fault:
+                # second period: the same mode function entered again on the robot a first period left behind
+                reps = {}
+                for pi in pis:
+                    if pi.outcome == "return" and pi.complete >= 1 and pi.lens and all(v >= 1 for v in pi.lens.values()) and pi.p.world is not None:
+                        reps.setdefault(pi.decided("cfg:use_teleop_in_autonomous"), pi)
+                for rep in reps.values():
+                    again = explore(ctx, info, rep.p.world, func, fault=False, max_while=1)
+                    for pi in again:
+                        pi.second = True
+                    group += [(func, pi) for pi in again]
+                    ctx.add("paths", len(again))
+                    ctx.add("second_period_paths", len(again))
         # list roles are inferred by use over all mode functions of this robot
         roles = find_roles([pi for _, pi in group])
         extra = roles_from_enable(group)
